@@ -14,7 +14,7 @@ import (
 func init() {
 	register(&propDef{
 		ID:          "C18",
-		Explanation: "Decides, for package lsp/jsonrpc2 (every function; go/cfg locksets and dominance, type-resolved): R1 every call of the Stream interface's Write holds one and the same write mutex of the connection (so whole frames are serialised) and all senders go through that one function; R2 in the framed stream's Write the length printed in the header is len() of the very byte slice passed to the following Write on the connection, with the Content-Length name and the blank-line separator as constants and no arithmetic on the length; R3 in the framed stream's Read the body buffer is make([]byte, length) with length parsed from the header, filled by io.ReadFull, on paths where length ≤ 0 and a missing header were rejected, and the header-line slice expressions are dominated by the `colon < 0` rejection; R4 in Call the reply channel is registered in the pending map (under its mutex) before the request is sent, has capacity ≥ 1, its removal is deferred, every access to the pending map holds its mutex, and the reader delivers a response only to the channel looked up by the response's own id; R5 the wait in Call selects on the reply and on ctx.Done(); also R3 the announced length has an upper bound before it sizes the allocation (a parse of at most 32 bits, or an explicit maximum test that dominates make), R4 the reply channel is made by the call itself (never recycled), and R6 DecodeMessage rejects no frame on a wire field that is optional (omitempty) and that this package's own encoder can leave null., R2 after a successful header write the body write follows on every path, and R7 no number parsed from the wire is narrowed by a conversion. R8 no goroutine of package jsonrpc2 writes to a stream's transport below the write lock (a frame is complete before the sender releases the lock); R9 the select in which a call waits for its response has no exit besides the response and the caller's context. NOT decided: all chunkings / schedules, JSON decoding of bodies. R10 no value holding a sync primitive by value is copied in package jsonrpc2 (a copied write lock excludes nobody); R11 the id decoder decodes into an integer or a string, never into json.Number or an interface (both accept the other JSON form: the string id \"7\" would become the number 7). R12/R13 no error result of package jsonrpc2 is dropped or detected and not reported; R14 every return leaves locks released; R15 the body of a frame is written to a writer that forwards on every path (a writer type of this package that tests the context first can refuse the body after the header went out).",
+		Explanation: "Decides, for package lsp/jsonrpc2 (every function; go/cfg locksets and dominance, type-resolved): R1 every call of the Stream interface's Write holds one and the same write mutex of the connection (so whole frames are serialised) and all senders go through that one function; R2 in the framed stream's Write the length printed in the header is len() of the very byte slice passed to the following Write on the connection, with the Content-Length name and the blank-line separator as constants and no arithmetic on the length; R3 in the framed stream's Read the body buffer is make([]byte, length) with length parsed from the header, filled by io.ReadFull, on paths where length ≤ 0 and a missing header were rejected, and the header-line slice expressions are dominated by the `colon < 0` rejection; R4 in Call the reply channel is registered in the pending map (under its mutex) before the request is sent, has capacity ≥ 1, its removal is deferred, every access to the pending map holds its mutex, and the reader delivers a response only to the channel looked up by the response's own id; R5 the wait in Call selects on the reply and on ctx.Done(); also R3 the announced length has an upper bound before it sizes the allocation (a parse of at most 32 bits, or an explicit maximum test that dominates make), R4 the reply channel is made by the call itself (never recycled), and R6 DecodeMessage rejects no frame on a wire field that is optional (omitempty) and that this package's own encoder can leave null., R2 after a successful header write the body write follows on every path, and R7 no number parsed from the wire is narrowed by a conversion. R8 no goroutine of package jsonrpc2 writes to a stream's transport below the write lock (a frame is complete before the sender releases the lock); R9 the select in which a call waits for its response has no exit besides the response and the caller's context. NOT decided: all chunkings / schedules, JSON decoding of bodies. R10 no value holding a sync primitive by value is copied in package jsonrpc2 (a copied write lock excludes nobody); R11 the id decoder decodes into an integer or a string, never into json.Number or an interface (both accept the other JSON form: the string id \"7\" would become the number 7). R12/R13 no error result of package jsonrpc2 is dropped or detected and not reported; R14 every return leaves locks released; R15 the body of a frame is written to a writer that forwards on every path (a writer type of this package that tests the context first can refuse the body after the header went out). R3 also: the header loop leaves at the first empty line on every path (no `continue` there), and a line-splitting helper is followed for the colon guard. R5 follows a helper that is handed the reply channel. R16 the kind of a decoded message is not decided by the nil-ness of a *json.RawMessage member (absent and null are the same to encoding/json, and the response writer sends \"result\":null).",
 		Assumptions: []string{"io.ReadFull returns an error unless exactly len(buf) bytes were read", "sync.Mutex provides mutual exclusion"},
 		Trusted:     []string{"go/types", "x/tools go/packages, go/cfg"},
 		Run:         runC18,
@@ -30,6 +30,7 @@ func runC18(c *Ctx) {
 	locksNeverCopied(c, "C18.R10", "lsp/jsonrpc2")
 	locksReleasedOnEveryReturn(c, "C18.R14", "lsp/jsonrpc2")
 	frameIsNotCutShort(c, "C18.R15")
+	messageKindNotDecidedByNullableMembers(c, "C18.R16")
 	idFormsDecodedIntoTheirOwnTypes(c, "C18.R11")
 	errorsNotLost(c, "C18.R12", "lsp/jsonrpc2")
 	errorsFoundAreReported(c, "C18.R13", "lsp/jsonrpc2")
@@ -857,7 +858,39 @@ func runC18(c *Ctx) {
 		// header-line slices are dominated by the colon<0 rejection
 		nslice := 0
 		okSlice := true
+		// (a helper of the unit that is handed the line and splits it — splitHeader(line) — is looked at as well)
+		sliceUnit := append([]unitFn{}, unit...)
 		for _, u := range unit {
+			ast.Inspect(u.fd.Body, func(n ast.Node) bool {
+				call, ok := n.(*ast.CallExpr)
+				if !ok || len(call.Args) != 1 {
+					return true
+				}
+				hfn := calleeOf(info, call)
+				if hfn == nil || hfn.Pkg() != p.Types {
+					return true
+				}
+				if t := info.TypeOf(call.Args[0]); t == nil || !isStringType(t) {
+					return true
+				}
+				for _, hfd := range allFuncDecls(p) {
+					if info.Defs[hfd.Name] != types.Object(hfn) || hfd.Body == nil {
+						continue
+					}
+					dup := false
+					for _, su := range sliceUnit {
+						if su.fd == hfd {
+							dup = true
+						}
+					}
+					if !dup {
+						sliceUnit = append(sliceUnit, unitFn{hfd, nil, newFnCFG(hfd.Body, info)})
+					}
+				}
+				return true
+			})
+		}
+		for _, u := range sliceUnit {
 			fd, fc := u.fd, u.fc
 			var colonGuard *ast.IfStmt
 			ast.Inspect(fd.Body, func(n ast.Node) bool {
@@ -925,6 +958,57 @@ func runC18(c *Ctx) {
 		}
 		c.check(okSlice && nslice >= 1, "C18.R3", key+"|header-slices-guarded", c.pos(fd.Pos()), fmt.Sprintf("%d slice expressions dominated by the `< 0` rejection", nslice),
 			"a header line is sliced at the colon index without the `colon < 0` rejection dominating it: a header line without ':' panics")
+		// the header part ends at the FIRST empty line, whatever was read so far: the test for it leaves the loop on every
+		// path. A `continue` there (skip empty lines until a length was seen) lets a header block WITHOUT Content-Length run
+		// on into the next frame's header — the malformed frame is accepted silently, or the reader waits forever — and
+		// makes the missing-length rejection after the loop unreachable.
+		for _, u := range unit {
+			ast.Inspect(u.fd.Body, func(n ast.Node) bool {
+				fs, ok := n.(*ast.ForStmt)
+				if !ok || !strings.Contains(nodeText(c.fset, fs.Body), "ReadString(") {
+					return true
+				}
+				for _, st := range fs.Body.List {
+					is, ok := st.(*ast.IfStmt)
+					if !ok {
+						continue
+					}
+					be, ok := ast.Unparen(is.Cond).(*ast.BinaryExpr)
+					if !ok || be.Op != token.EQL {
+						continue
+					}
+					if sv, isC := constString(info, be.Y); !isC || sv != "" {
+						if sv2, isC2 := constString(info, be.X); !isC2 || sv2 != "" {
+							continue
+						}
+					}
+					stays := ""
+					ast.Inspect(is.Body, func(m ast.Node) bool {
+						switch t := m.(type) {
+						case *ast.FuncLit, *ast.ForStmt, *ast.RangeStmt:
+							return false
+						case *ast.BranchStmt:
+							if t.Tok == token.CONTINUE {
+								stays = c.pos(t.Pos())
+							}
+						}
+						return true
+					})
+					leaves := false
+					if len(is.Body.List) > 0 {
+						switch t := is.Body.List[len(is.Body.List)-1].(type) {
+						case *ast.BranchStmt:
+							leaves = t.Tok == token.BREAK || t.Tok == token.GOTO
+						case *ast.ReturnStmt:
+							leaves = true
+						}
+					}
+					c.check(stays == "" && leaves, "C18.R3", funcKey(p, u.fd)+"|header-ends-at-first-empty-line", c.pos(is.Pos()), "the empty-line test leaves the header loop on every path",
+						fmt.Sprintf("%s: the header loop does not always stop at the empty line (it goes on reading at %s): a header block that carries no Content-Length no longer ends there — it is merged with the next frame's header and accepted without an error, or the reader blocks — and the `missing Content-Length` rejection after the loop cannot be reached for it", u.fd.Name.Name, stays))
+				}
+				return true
+			})
+		}
 	}
 	if !foundR {
 		c.viol("C18.R3", "anchor-lost:framed-reader", "", "no function reads a frame body with io.ReadFull")
@@ -1278,6 +1362,66 @@ func runC18(c *Ctx) {
 			}
 			return true
 		})
+		// … or in a helper of the package that is handed the reply channel (resp, err := c.await(ctx, rchan))
+		if !selOK {
+			directNodes(fd.Body, func(n ast.Node) bool {
+				call, ok := n.(*ast.CallExpr)
+				if !ok {
+					return true
+				}
+				hfn := calleeOf(info, call)
+				if hfn == nil || hfn.Pkg() != p.Types {
+					return true
+				}
+				ai := -1
+				for i, a := range call.Args {
+					if id, ok := ast.Unparen(a).(*ast.Ident); ok && info.ObjectOf(id) == chObj {
+						ai = i
+					}
+				}
+				if ai < 0 {
+					return true
+				}
+				for _, hfd := range allFuncDecls(p) {
+					if info.Defs[hfd.Name] != types.Object(hfn) || hfd.Body == nil {
+						continue
+					}
+					prms := paramObjs(info, hfd)
+					if ai >= len(prms) {
+						continue
+					}
+					directNodes(hfd.Body, func(m ast.Node) bool {
+						sel, ok := m.(*ast.SelectStmt)
+						if !ok {
+							return true
+						}
+						hasReply, hasDone := false, false
+						for _, cl := range sel.Body.List {
+							cc := cl.(*ast.CommClause)
+							if cc.Comm == nil {
+								continue
+							}
+							if strings.Contains(nodeText(c.fset, cc.Comm), "Done()") {
+								hasDone = true
+							}
+							ast.Inspect(cc.Comm, func(k ast.Node) bool {
+								if ue, ok := k.(*ast.UnaryExpr); ok && ue.Op == token.ARROW {
+									if id, ok := ue.X.(*ast.Ident); ok && info.ObjectOf(id) == prms[ai] {
+										hasReply = true
+									}
+								}
+								return true
+							})
+						}
+						if hasReply && hasDone {
+							selOK = true
+						}
+						return true
+					})
+				}
+				return true
+			})
+		}
 		c.check(selOK, "C18.R5", key+"|waits-on-reply-and-cancel", c.pos(fd.Pos()), "the wait selects on the reply channel and ctx.Done()", "Call no longer waits on both its reply channel and ctx.Done()")
 	}
 	// reader: delivers to the channel looked up by the response's own id
